@@ -24,7 +24,8 @@ type CommitRec struct {
 	Parents []repository.Hash
 	Tree    repository.Hash
 	Signed  bool
-	SigOK   bool // M-PGP verdict for this commit
+	SigOK   bool // M-PGP verdict for this commit (when Signer is nil)
+	Signer  *openpgp.Entity // who signed (StoreSignedCommit); M-PGP: verifies iff in the keyring
 }
 
 type Ref struct {
@@ -284,7 +285,13 @@ func (r *Repo) StoreCommit(treeHash repository.Hash, parents ...repository.Hash)
 }
 
 func (r *Repo) StoreSignedCommit(treeHash repository.Hash, signKey *openpgp.Entity, parents ...repository.Hash) (repository.Hash, error) {
-	return r.storeCommit(treeHash, true, parents)
+	h, err := r.storeCommit(treeHash, true, parents)
+	if err == nil {
+		r.mu.Lock()
+		r.Commits[h].Signer = signKey
+		r.mu.Unlock()
+	}
+	return h, err
 }
 
 func (r *Repo) storeCommit(treeHash repository.Hash, signed bool, parents []repository.Hash) (repository.Hash, error) {
@@ -316,12 +323,30 @@ func (r *Repo) AddBlob(data []byte) repository.Hash {
 	return h
 }
 
-type sigReader struct{ ok bool }
+type sigReader struct {
+	ok     bool
+	signer *openpgp.Entity
+}
 
 func (s *sigReader) Read(p []byte) (int, error) { return 0, io.EOF }
 
 // VHVerdict is what M-PGP answers for a commit carrying this signature.
 func (s *sigReader) VHVerdict() bool { return s.ok }
+
+// VHVerdictFor is what M-PGP answers when the signature is checked against keyring: a
+// signature made by StoreSignedCommit verifies iff its signer is in the keyring; a
+// signature injected by a harness (no signer) verifies as the harness said.
+func (s *sigReader) VHVerdictFor(keyring openpgp.EntityList) bool {
+	if s.signer == nil {
+		return s.ok
+	}
+	for _, e := range keyring {
+		if e == s.signer {
+			return true
+		}
+	}
+	return false
+}
 
 func (r *Repo) ReadCommit(hash repository.Hash) (repository.Commit, error) {
 	r.mu.Lock()
@@ -332,8 +357,8 @@ func (r *Repo) ReadCommit(hash repository.Hash) (repository.Commit, error) {
 	}
 	res := repository.Commit{Hash: hash, Parents: c.Parents, TreeHash: c.Tree}
 	if c.Signed {
-		res.SignedData = &sigReader{c.SigOK}
-		res.Signature = &sigReader{c.SigOK}
+		res.SignedData = &sigReader{c.SigOK, c.Signer}
+		res.Signature = &sigReader{c.SigOK, c.Signer}
 	}
 	return res, nil
 }
